@@ -302,7 +302,7 @@ func TestCheck(t *testing.T) {
 	defer r.Finish()
 	r.Note("rule", "per bridge: genuine control (must complete, data both ways); man-in-the-middle on a genuine real server's first write: EVERY single bit of representative, AUTH, mark and MAC (768 bits) plus PRNG-sampled padding bits and seed-frame bits, truncation/insertion/deletion inside every field, field offsets found from public data only; impostor servers (reference implementation with the victim's public B and NODEID but another private key; replay of a recorded genuine response); clients configured with NODEID or B differing in one bit or random; all under response chunkings {all,1,31,33,63,65,PRNG}; 32 clients handshaking concurrently against one factory under the race detector; ephemeral representatives of all hellos/responses must be pairwise distinct. Non-trivial = a case whose modification was actually applied (or an impostor/misconfiguration/genuine case that ran); distinct = (bridge, class, position, chunking).")
 	dir := o4.StateDir("c02")
-	nBridges := r.Pick(2, 24)
+	nBridges := r.Pick(4, 24)
 	for bi := 0; bi < nBridges; bi++ {
 		for _, field := range []string{"repr", "auth", "mark", "mac"} {
 			nbits := map[string]int{"repr": 256, "auth": 256, "mark": 128, "mac": 128}[field]
